@@ -480,7 +480,7 @@ import suite_expr  # noqa: E402
 
 
 PROPS["C01"] = {
-    "lean": ["CocoVerif.Props.C01", "CocoVerif.Props.C01Front", "CocoVerif.Tie.EcbText"],
+    "lean": ["CocoVerif.Props.C01", "CocoVerif.Props.C01Front", "CocoVerif.Props.C01Tokens", "CocoVerif.Tie.EcbText"],
     "lean_extra": B09_LEAN_EXTRA + ["CocoVerif.Spec.Ladder"] + FRONT_LEAN,
     "suites": [{"name": "expr", "relevant": lambda c: True, "oracle": suite_expr.oracle, "classify": suite_expr.classify}]
               + FRONT_SUITES,
@@ -531,6 +531,9 @@ PROPS["C12"] = {
                               "surviving between calls) is exercised by the det suite, not proved"],
     "assumptions": [],
 }
+
+# … and through the command line: a call of start(argv) equals the same command line in a fresh process
+PROPS["C12"]["suites"].append({"name": "cli", "relevant": lambda c: True, "oracle": _SC.fresh_oracle})
 
 import suite_lib  # noqa: E402
 
